@@ -87,6 +87,9 @@ class C07(Plugin):
         cfg['max_lines'] = 40
         return cfg
 
+    def extra_sig(self):
+        return {'predicates': sorted(getattr(self, 'last_P', ()))}
+
     def read_opts(self, rng):
         o = {}
         if rng.random() < 0.5:
@@ -205,6 +208,14 @@ class C07(Plugin):
         if run.cfg['p_qcheck'] and (run.step * 31 % 10) / 10 < run.cfg['p_qcheck']:
             from . import queries
             ctx['q'] = queries.query_tree(run.root, 1)
+        if k == 'cut_vs_copy':
+            try:
+                from .props_c04 import Pre, family_flags
+                cop = {'k': 'cut', 'path': op['path']} if op['what'] == 'node' else \
+                    {'k': 'cut_slice', 'path': op['path'], 'field': op['field'], 'start': op['start'], 'stop': op['stop']}
+                self.last_P = family_flags(Pre(ctx['src']), cop)
+            except Exception:
+                self.last_P = set()
         # original elements (pure AST, pre-state) for faithfulness
         tree = ast.parse(ctx['src'])
         node = resolve(tree, [tuple(p) for p in op['path']])
@@ -233,7 +244,7 @@ class C07(Plugin):
                     b = op.get('stop', 'end')
                     ns = norm_slice(len(v), 0 if a is None else a, 'end' if b is None else b)
                     if ns is not None:
-                        ctx['orig'] = ('list', v[ns[0]:ns[1]])
+                        ctx['orig'] = ('list', v[ns[0]:ns[1]], node.__class__.__name__)
         return ctx
 
     def post_op(self, op, ctx, out):
@@ -314,12 +325,13 @@ class C07(Plugin):
                     dup = sorted(set(rem) & set(pc))
                     if dup:
                         raise Violation('token_in_both_piece_and_remainder', f'{dup[:5]!r} piece={piece.src[:200]!r} rem={root.src[:300]!r}')
-                    if lost and op.get('what') == 'node' and op['path'] and op['path'][-1][0] == 'exc':
-                        lost = []  # deleting Raise.exc necessarily deletes its cause (validity)
+                    if lost and op.get('what') == 'node' and op['path'] and op['path'][-1][0] in ('exc', 'type'):
+                        lost = []  # deleting Raise.exc / ExceptHandler.type necessarily deletes its cause / name (validity)
                     if lost:
                         # comments not selected by trivia stay in the remainder; selected go to the piece: both fine.
                         raise Violation('token_lost_by_cut', f'{lost[:5]!r} trivia={opts.get("trivia")!r} before={ctx["src"][:300]!r} piece={piece.src[:200]!r} rem={root.src[:300]!r}')
                     new = sorted((set(rem) | set(pc)) - set(before))
+                    new = [t for t in new if t != 'set']  # documented empty-Set normalisation set_norm='call'
                     if new and any(not t.startswith(('"', "'")) for t in new):
                         raise Violation('token_invented_by_cut', f'{new[:5]!r}')
                 run.stats['conservation_checks'] += 1
@@ -370,6 +382,11 @@ class C07(Plugin):
                 run.stats['faithful_checks'] += 1
         else:
             want = sorted(ndump(x) for x in orig[1])
+            if ret.a.__class__.__name__ != orig[2] and not isinstance(ret.a, ast.Module) and not ret.a.__class__.__name__.startswith('_'):
+                # normalised single-element result (e.g. one-operand BoolOp slice returned as the operand itself)
+                if len(want) == 1 and want[0] != ndump(ret.a):
+                    raise Violation('slice_copy_not_structurally_equal', f'want={want!r}'[:400] + f' got={ndump(ret.a)!r}'[:400])
+                return
             kids = [c for c in ast.iter_child_nodes(ret.a) if not isinstance(c, (ast.expr_context,))]
             got = sorted(ndump(x) for x in kids)
             if isinstance(ret.a, ast.Module) or ret.a.__class__.__name__.startswith('_') or isinstance(ret.a, (ast.List, ast.Tuple, ast.Set)):
